@@ -19,7 +19,7 @@ package client
 //@   opaque (*Table).Put
 //@   callsite[C01,C05,C08,C13] (*Client).getTable: arg.tableName == old(input.TableName == nil ? "" : *input.TableName)
 //@   callsite[C01,C05,C08,C13] mapPutItemInputToTypes: arg.input == input
-//@   callsite[C01,C05,C08,C13] (*Table).Put: arg.t == table && arg.input != nil && arg.input.ConditionExpression == old(input.ConditionExpression) &&
+//@   callsite[C01,C05,C08,C13] (*Table).Put: arg.t == fd.tables[old(input.TableName == nil ? "" : *input.TableName)] && arg.input != nil && arg.input.ConditionExpression == old(input.ConditionExpression) &&
 //@                SameKeys1(arg.input.Item, old(input.Item)) && SameKeys1(arg.input.ExpressionAttributeValues, old(input.ExpressionAttributeValues))
 //@   ensures[C15] old(fd.forceFailureErr) != nil && sdkValidate(input) == nil ==> result1 == old(fd.forceFailureErr) && unchangedAll()
 //@ func (*Client).DeleteItem
@@ -27,7 +27,7 @@ package client
 //@   opaque (*Table).Delete
 //@   callsite[C01,C05,C08,C13] (*Client).getTable: arg.tableName == old(input.TableName == nil ? "" : *input.TableName)
 //@   callsite[C01,C05,C08,C13] mapDeleteItemInputToTypes: arg.input == input
-//@   callsite[C01,C05,C08,C13] (*Table).Delete: arg.t == table && arg.input != nil && arg.input.ConditionExpression == old(input.ConditionExpression) &&
+//@   callsite[C01,C05,C08,C13] (*Table).Delete: arg.t == fd.tables[old(input.TableName == nil ? "" : *input.TableName)] && arg.input != nil && arg.input.ConditionExpression == old(input.ConditionExpression) &&
 //@                SameKeys1(arg.input.Key, old(input.Key)) && SameKeys1(arg.input.ExpressionAttributeValues, old(input.ExpressionAttributeValues))
 //@   ensures[C15] old(fd.forceFailureErr) != nil && sdkValidate(input) == nil ==> result1 == old(fd.forceFailureErr) && unchangedAll()
 //@ func (*Client).UpdateItem
@@ -35,13 +35,13 @@ package client
 //@   opaque (*Table).Update
 //@   callsite[C01,C05,C08,C13] (*Client).getTable: arg.tableName == old(input.TableName == nil ? "" : *input.TableName)
 //@   callsite[C01,C05,C08,C13] mapUpdateItemInputToTypes: arg.input == input
-//@   callsite[C01,C05,C08,C13] (*Table).Update: arg.t == table && arg.input != nil && arg.input.ConditionExpression == old(input.ConditionExpression) &&
+//@   callsite[C01,C05,C08,C13] (*Table).Update: arg.t == fd.tables[old(input.TableName == nil ? "" : *input.TableName)] && arg.input != nil && arg.input.ConditionExpression == old(input.ConditionExpression) &&
 //@                arg.input.UpdateExpression == old(input.UpdateExpression == nil ? "" : *input.UpdateExpression) && SameKeys1(arg.input.Key, old(input.Key)) && SameKeys1(arg.input.ExpressionAttributeValues, old(input.ExpressionAttributeValues))
 //@   ensures[C15] old(fd.forceFailureErr) != nil && sdkValidate(input) == nil ==> result1 == old(fd.forceFailureErr) && unchangedAll()
 //@ func (*Client).GetItem
 //@   partial
 //@   callsite[C01,C13] (*Client).getTable: arg.tableName == old(input.TableName == nil ? "" : *input.TableName)
-//@   callsite[C01,C13] keySchema.GetKey: arg.ks == table.KeySchema && arg.attrs == table.AttributesDef && SameKeys1(arg.item, old(input.Key))
+//@   callsite[C01,C13] keySchema.GetKey: arg.ks == fd.tables[old(input.TableName == nil ? "" : *input.TableName)].KeySchema && arg.attrs == fd.tables[old(input.TableName == nil ? "" : *input.TableName)].AttributesDef && SameKeys1(arg.item, old(input.Key))
 //@   ensures[C15] old(fd.forceFailureErr) != nil && sdkValidate(input) == nil ==> result1 == old(fd.forceFailureErr) && unchangedAll()
 //@ func (*Client).Query
 //@   partial
@@ -49,7 +49,7 @@ package client
 // C02/C04/C17: the search the client performs is the one the request describes (same clauses as on the SDK v2 client)
 //@   opaque (*Table).SearchData
 //@   callsite[C02,C04,C17] (*Client).getTable: arg.tableName == old(input.TableName == nil ? "" : *input.TableName)
-//@   callsite[C02,C04,C17] (*Table).SearchData: arg.t == table && !arg.input.Scan && !arg.input.started && arg.input.ConditionExpression == nil &&
+//@   callsite[C02,C04,C17] (*Table).SearchData: arg.t == fd.tables[old(input.TableName == nil ? "" : *input.TableName)] && !arg.input.Scan && !arg.input.started && arg.input.ConditionExpression == nil &&
 //@                arg.input.Index == old(input.IndexName == nil ? "" : *input.IndexName) &&
 //@                arg.input.ScanIndexForward == (old(input.ScanIndexForward) == nil || old(*input.ScanIndexForward)) &&
 //@                arg.input.KeyConditionExpression == old(*input.KeyConditionExpression) &&
@@ -60,7 +60,7 @@ package client
 //@   ensures[C15] old(fd.forceFailureErr) != nil && sdkValidate(input) == nil ==> result1 == old(fd.forceFailureErr) && unchangedAll()
 //@   opaque (*Table).SearchData
 //@   callsite[C02,C04,C17] (*Client).getTable: arg.tableName == old(input.TableName == nil ? "" : *input.TableName)
-//@   callsite[C02,C04,C17] (*Table).SearchData: arg.t == table && arg.input.Scan && arg.input.ScanIndexForward && !arg.input.started && arg.input.ConditionExpression == nil &&
+//@   callsite[C02,C04,C17] (*Table).SearchData: arg.t == fd.tables[old(input.TableName == nil ? "" : *input.TableName)] && arg.input.Scan && arg.input.ScanIndexForward && !arg.input.started && arg.input.ConditionExpression == nil &&
 //@                arg.input.KeyConditionExpression == "" && arg.input.Index == old(input.IndexName == nil ? "" : *input.IndexName) &&
 //@                arg.input.FilterExpression == old(input.FilterExpression == nil ? "" : *input.FilterExpression) &&
 //@                arg.input.Limit == old(input.Limit == nil ? 0 : *input.Limit)
@@ -199,7 +199,7 @@ package client
 //@   partial
 //@   requires typeis(client, "*Client") ==> client.(*Client) != nil && forall n string :: {client.(*Client).tables[n]} n in client.(*Client).tables ==> client.(*Client).tables[n] != nil &&
 //@            (forall m string :: {client.(*Client).tables[n].Indexes[m]} m in client.(*Client).tables[n].Indexes ==> client.(*Client).tables[n].Indexes[m] != nil)
-//@   callsite[C18] (*Table).Clear: arg.t == table
+//@   callsite[C18] (*Table).Clear: arg.t == client.(*Client).tables[tableName]
 //@   callsite[C18] (*index).Clear: arg.i == index
 
 // ---- C01 / C05 / C08 / C13 at the client: single-item operations reach the core unchanged (as on the SDK v2 client) ----
